@@ -631,7 +631,12 @@ func (x *Exec) applyContract(st *State, f *Frame, con *Contract, sig *types.Sign
 	}
 	for _, cl := range con.Clauses {
 		if cl.Kind == "ensures" {
-			st.assume(env.evalBool(cl.E))
+			// a callee postcondition that cannot be evaluated any more is simply not assumed
+			if g, msg := x.tryClause(env, cl.E); msg == "" {
+				st.assume(g)
+			} else {
+				x.noteLib("postcondition of " + con.FnName + " not assumed (cannot be evaluated: " + msg + ")")
+			}
 		}
 	}
 	return res
@@ -1252,12 +1257,16 @@ func (x *Exec) checkSinks(st *State, f *Frame, c *ssa.CallCommon, args []Val) {
 				env.vars[fmt.Sprintf("$arg%d", i)] = TV{args[k+i], c.Args[i].Type()}
 			}
 		}
-		g := env.evalBool(cl.E)
+		g, msg := x.tryClause(env, cl.E)
 		cn := cl.Name
 		if cn == "" {
 			cn = name
 		}
-		x.emit(st, "sink", cn, cl.Text, cl.Props, g)
+		text := cl.Text
+		if msg != "" {
+			text += "   [cannot be evaluated on this code: " + msg + "]"
+		}
+		x.emit(st, "sink", cn, text, cl.Props, g)
 	}
 }
 
